@@ -8,7 +8,7 @@ Recipe pool_recipe(uint64_t master, uint64_t idx, bool many) {
   r.rate = rates[g.below(10)];
   double c = g.unit();
   r.ch = c < 0.32 ? 1 : c < 0.72 ? 2 : c < 0.80 ? 3 : c < 0.86 ? 4 : c < 0.90 ? 5 : c < 0.95 ? 6 : 8;
-  if (many && g.chance(0.08)) r.ch = 9 + (int)g.below(g.chance(0.3) ? 247 : 24);
+  if (many && g.chance(0.08)) { r.ch = 9 + (int)g.below(g.chance(0.3) ? 247 : 24); if (g.chance(0.2)) r.ch = 255; }   // 255 is the format's maximum
   r.q = -0.1 + g.unit() * 1.1; if (g.chance(0.15)) r.q = g.chance(0.5) ? -0.1 : 1.0;
   r.mode = 0;
   if (g.chance(0.2)) { r.mode = 1 + (int)g.below(3); r.nominal = (long)(r.rate * 1.4 * std::min(r.ch, 2) * (0.6 + g.unit())); }
